@@ -68,9 +68,6 @@ Proof.
       rewrite Hs. apply closed_step. left. exact E.
 Qed.
 
-Definition distinct_vals (d : bool) (vals : list (option Z)) : list Z :=
-  if d then zdedup (nonnull vals) else nonnull vals.
-
 Lemma agg_obs d vals :
   obs4 (fold_left (acc_step d) vals acc0) = closed (0, 0, None, None) (distinct_vals d vals).
 Proof.
